@@ -55,6 +55,16 @@ func (i *rwInterceptor) WriteHeader(statusCode int) {
 		return
 	}
 
+	// Informational responses (1xx such as 103 Early Hints) are not the
+	// response: net/http lets a handler send any number of them before the
+	// final WriteHeader. Pass them through and keep waiting for the final
+	// status, otherwise that one is dropped as superfluous and the client
+	// gets 200 instead. 101 ends the HTTP exchange and is handled below.
+	if statusCode >= 100 && statusCode <= 199 && statusCode != http.StatusSwitchingProtocols {
+		i.w.WriteHeader(statusCode)
+		return
+	}
+
 	i.wroteHeader = true
 
 	for _, k := range sortedHeaderKeys(i.w.Header()) {
